@@ -46,6 +46,44 @@ def neumann_apply(u, dx):
     return out
 
 
+def analytic_eigs(n, dx):
+    """eigenvalues of the Neumann second-difference matrix, sorted decreasing (null mode last)"""
+    return np.sort((2 - 2 * np.cos(np.pi * np.arange(n) / n)) / dx**2)[::-1]
+
+
+def inverse_table_contract(s, dim, shape, dx, real_t):
+    """the table `solve` multiplies with must be 1/(sum of the axis eigenvalues) on every mode but the constant one, and 0
+    there and only there: this is the hypothesis `invTable` of the C11 theorems (Props/C11Link: fdSolve_eq_spectral)"""
+    lam = [analytic_eigs(n, float(dx)) for n in shape]
+    tot = lam[0].reshape((-1,) + (1,) * (dim - 1))
+    for a in range(1, dim):
+        sh = [1] * dim; sh[a] = shape[a]
+        tot = tot + lam[a].reshape(sh)
+    inv = np.asarray(s.inv_eig_val_matrix, dtype=np.float64)
+    zeros = np.argwhere(inv == 0)
+    null = tuple(n - 1 for n in shape)
+    if inv.shape != tuple(shape) or not np.all(np.isfinite(inv)):
+        return f"inverse eigenvalue table has shape {inv.shape} / non-finite entries"
+    if len(zeros) != 1 or tuple(zeros[0]) != null:
+        return (f"inverse eigenvalue table is zero at modes {[tuple(int(v) for v in z) for z in zeros[:6]]}"
+                f"{' ...' if len(zeros) > 6 else ''} ({len(zeros)} modes); only the constant mode {null} may be removed")
+    with np.errstate(divide="ignore"):
+        want = 1.0 / tot
+    want[null] = 0.0
+    # absolute error of a computed eigenvalue is ~ eps * largest eigenvalue; the relative error of 1/(sum) follows
+    eps = float(np.finfo(real_t).eps)
+    allowed = 64 * max(shape) * eps * tot.max() / np.where(tot > 0, tot, np.inf) + 64 * eps
+    allowed[null] = 0
+    rel = np.abs(inv - want) / np.where(want > 0, want, 1.0)
+    if np.any(rel > allowed):
+        k = np.unravel_index(np.argmax(rel - allowed), rel.shape)
+        return f"inverse eigenvalue table at mode {tuple(int(v) for v in k)}: {inv[k]!r}, 1/(sum of eigenvalues) = {want[k]!r}"
+    return None
+
+
+LONG = [(2, (8, 64)), (2, (64, 3)), (3, (8, 12, 64)), (3, (64, 4, 5)), (2, (5, 96))]
+
+
 def run(seed=0, tier="quick"):
     res = {"ok": True, "cases": 0, "samples": [], "name": "Model.fdSolve2/3 with the implementation's eigen-data vs solve; eigen-contract residuals",
            "worst_contract_residual": 0.0}
@@ -53,6 +91,19 @@ def run(seed=0, tier="quick"):
     if tier != "quick":
         cfgs += [(2, (6, 5)), (2, (2, 2)), (3, (3, 3, 5)), (3, (5, 4, 2))]
     reqs, expect, metas = [], [], []
+    # ---- hypothesis of the theorems on the table of inverse eigenvalues, both precisions, short and long axes
+    res["inverse_table_cases"] = 0
+    for ci, (dim, shape) in enumerate(cfgs + LONG + ([(2, (128, 7)), (3, (20, 80, 6)), (3, (6, 6, 128))] if tier != "quick" else [])):
+        r = impl.rng(seed, "fd-table", ci)
+        for real_t in (np.float32, np.float64):
+            dx = real_t([0.125, float(r.uniform(0.01, 0.5)), 1.0 / 64][ci % 3])
+            s = make(dim, shape, dx, real_t)
+            bad = inverse_table_contract(s, dim, shape, dx, real_t)
+            res["inverse_table_cases"] += 1
+            if bad:
+                meta = {"dim": dim, "grid": list(shape), "dx": float(dx), "dtype": real_t.__name__}
+                res.update(ok=False, detail=f"{meta}: {bad}", failing_case=meta)
+                return res
     for ci, (dim, shape) in enumerate(cfgs):
         r = impl.rng(seed, "fd", ci)
         dx = float(r.uniform(0.05, 0.5)) if ci % 2 else [0.125, 0.0625, 0.5][ci % 3]
@@ -111,19 +162,31 @@ def oracle(seed=0, tier="quick", aimed=None):
     cases = 0
     samples = []
     cfgs = [(2, (8, 8)), (2, (5, 9)), (2, (2, 7)), (3, (8, 8, 8)), (3, (4, 5, 6)), (3, (2, 3, 9)), (2, (16, 16)), (3, (6, 6, 4))]
+    cfgs += LONG[:3]
     if tier != "quick":
-        cfgs += [(2, (33, 12)), (2, (64, 3)), (3, (12, 7, 9)), (3, (16, 16, 16)), (2, (3, 3))]
+        cfgs += [(2, (33, 12)), (3, (12, 7, 9)), (3, (16, 16, 16)), (2, (3, 3))] + LONG[3:] + [(2, (128, 7)), (3, (6, 6, 128))]
     for ci, (dim, shape) in enumerate(cfgs):
         r = impl.rng(seed, "c11", ci)
         dx = [1.0 / 16, 0.5, float(r.uniform(0.05, 0.5)), 0.125][ci % 4]
         # both construction orders of the two precisions (a solver of the other precision may exist already)
         order = [np.float32, np.float64] if ci % 2 == 0 else [np.float64, np.float32]
         for real_t in order:
-            tol = 2e-11 if real_t == np.float64 else 5e-3
+            base_tol = 2e-11 if real_t == np.float64 else 5e-3
             s = make(dim, shape, real_t(dx), real_t)
             info = {"dim": dim, "grid": list(shape), "dx": dx, "dtype": real_t.__name__, "construction_order": [t.__name__ for t in order]}
-            for k in range(2):
-                f = r.normal(size=shape).astype(real_t)
+            for k in range(2 + dim):
+                if k < 2:
+                    f = r.normal(size=shape).astype(real_t)
+                else:
+                    # the smoothest non-constant mode along one axis (the right-hand side closest to the null space)
+                    ax = k - 2
+                    n = shape[ax]
+                    sh = [1] * dim; sh[ax] = n
+                    f = np.broadcast_to(np.cos(np.pi * (np.arange(n) + 0.5) / n).reshape(sh), shape).astype(real_t)
+                info["rhs"] = "random" if k < 2 else f"lowest cosine mode along axis {k - 2}"
+                # the solution of the smoothest mode is ~ (n/pi)^2 dx^2 larger than its right-hand side: round-off in the
+                # residual scales with eps * n^2 (measured: 1.2e-11 at n = 128 in float64, 5e-4 in float32)
+                tol = base_tol if k < 2 else max(base_tol, 40 * float(np.finfo(real_t).eps) * max(shape) ** 2)
                 u = np.zeros(shape, dtype=real_t)
                 with warnings.catch_warnings():
                     warnings.simplefilter("ignore")
